@@ -388,6 +388,10 @@ def special_models(rng):
 
 def shard(ctx):
     rng, P = ctx.rng, ctx.params
+    from .. import faults, seeds
+    fr = __import__("random").Random("c06-failing-%d-%d" % (ctx.seed, ctx.index))
+    bad = [ctx.write("failing-%d.mdl" % i, d) for i, d in enumerate(x for _, data, _ in seeds.seeds_mdl(fr)[:3] for x in faults.damaged_variants(fr, data, 3))]
+    ctx.failing_calls_first([("mdl.parse", (b, ctx.path("failing.dump"))) for b in bad], before=("mdl.parse",))
     if ctx.index % 4 == 1:
         for label, m in special_models(rng):
             run_model(ctx, m, label)
